@@ -82,15 +82,17 @@ F2Schemas(z) == UpTo(F2Atoms)
 L3 == {TrueS, FalseS, IntS}
 ObjNames == {"a", "b", "ab", "c"}
 ObjLeaf == {Num(R_1), Str("a")}
-ObjVals == {Obj(m) : m \in MapsOf(ObjNames, ObjLeaf, 0, 4)} \cup {Num(R_1), EmptyArr}
+ObjVals == {Obj(m) : m \in MapsOf(ObjNames, ObjLeaf, 0, 4)} \cup {Num(R_1), EmptyArr, Obj([a |-> EmptyObj]), Obj([a |-> Obj([b |-> Num(R_1)])])}
 F3Atoms ==
   {[properties |-> m] : m \in MapsOf({"a", "b"}, L3, 0, 2)}
   \cup {[patternProperties |-> m] : m \in MapsOf({"^a", "b$"}, {IntS, FalseS}, 1, 2)}
   \cup {[additionalProperties |-> l] : l \in L3 \cup {[not |-> TrueS]}}
   \cup {[propertyNames |-> l] : l \in {[maxLength |-> 1], [pattern |-> "^a"], FalseS, [const |-> Str("a")]}}
   \cup {[minProperties |-> k] : k \in 0..2} \cup {[maxProperties |-> k] : k \in 0..2}
-  \cup {[required |-> r] : r \in {<<>>, <<"a">>, <<"a", "b">>, <<"c">>}}
-  \cup {[dependentRequired |-> d] : d \in {[a |-> <<"b">>], [a |-> <<>>], [c |-> <<"a">>, a |-> <<"ab">>]}}
+  \* (name lists that are in no sorted order, also below the root: the lists are the caller's, in the caller's order)
+  \cup {[required |-> r] : r \in {<<>>, <<"a">>, <<"a", "b">>, <<"c">>, <<"c", "a">>}}
+  \cup {[properties |-> [a |-> [required |-> <<"b", "a">>]]]}
+  \cup {[dependentRequired |-> d] : d \in {[a |-> <<"b">>], [a |-> <<>>], [c |-> <<"a">>, a |-> <<"ab">>], [a |-> <<"c", "ab">>]}}
   \cup {[dependentSchemas |-> d] : d \in {[a |-> [required |-> <<"b">>]], [a |-> FalseS],
                                           [b |-> [properties |-> [a |-> IntS]]]}}
   \cup {[unevaluatedProperties |-> l] : l \in {FalseS, IntS}}
@@ -193,7 +195,18 @@ U1Twice == UNION {{[defs |-> [base |-> b], allOf |-> <<[ref |-> LocalRef(PtrDefs
                    [defs |-> [base |-> b], allOf |-> <<[ref |-> LocalRef(PtrDefs("base"))]>>, ref |-> LocalRef(PtrDefs("base"))] @@ u,
                    [defs |-> [base |-> b], if |-> [ref |-> LocalRef(PtrDefs("base"))], then |-> [ref |-> LocalRef(PtrDefs("base"))] @@ u]}
                   : u \in UnevP, b \in {PA, PB, [allOf |-> <<PA, PB>>], [properties |-> [a |-> TrueS, b |-> TrueS]]}}
-U1Schemas(z) == U1Deep \cup U1Twice \cup {u @@ x : u \in UnevP, x \in IF K >= 2 THEN UNION {U1Inplace(0), Pairs(U1Inplace(0)), U1Nested(0), U1Child} ELSE UNION {U1Inplace(0), U1Nested(0), U1Child}}
+\* "at any nesting depth": every in-place applicator directly inside every in-place applicator (incl. an `if`
+\* that has neither then nor else - it never fails, but what it evaluates counts when it holds)
+InWrap(w, e) ==
+  CASE w = "allOf" -> [allOf |-> <<e>>] [] w = "anyOf" -> [anyOf |-> <<e>>] [] w = "oneOf" -> [oneOf |-> <<e>>]
+    [] w = "if" -> [if |-> e] [] w = "ifthen" -> [if |-> TrueS, then |-> e] [] w = "ifelse" -> [if |-> FalseS, else |-> e]
+    [] w = "dep" -> [dependentSchemas |-> [a |-> e]]
+InWraps == {"allOf", "anyOf", "oneOf", "if", "ifthen", "ifelse"}
+U1Nest2 == {InWrap(w1, InWrap(w2, e)) : w1 \in InWraps \cup {"dep"}, w2 \in InWraps \cup {"dep"},
+                                        e \in {PA, PB, [required |-> <<"a">>] @@ PA, [patternProperties |-> ("^a" :> TrueS)]}}
+           \cup {[defs |-> [x |-> InWrap(w2, e)], if |-> [ref |-> LocalRef(PtrDefs("x"))]] : w2 \in InWraps, e \in {PA, PB}}
+           \cup {[defs |-> [x |-> e], if |-> [ref |-> LocalRef(PtrDefs("x"))]] : e \in {PA, PB, [required |-> <<"a">>] @@ PA}}
+U1Schemas(z) == U1Deep \cup U1Twice \cup {u @@ x : u \in UnevP, x \in U1Nest2} \cup {u @@ x : u \in UnevP, x \in IF K >= 2 THEN UNION {U1Inplace(0), Pairs(U1Inplace(0)), U1Nested(0), U1Child} ELSE UNION {U1Inplace(0), U1Nested(0), U1Child}}
 U1Vals == {Obj(m) : m \in MapsOf({"a", "b", "c"}, {Num(R_1), Str("a")}, 0, 3)}
           \cup {Obj([a |-> Obj([b |-> Num(R_1), c |-> Num(R_1)]), b |-> Num(R_1)]), Num(R_1)}
           \cup {Obj([a |-> x]) : x \in {Obj([b |-> Num(R_1)]), Obj([b |-> Str("a")]), EmptyObj, Obj([c |-> Num(R_1)]), Obj([b |-> Num(R_1), c |-> Str("a")])}}
@@ -224,7 +237,10 @@ U2Mixed == {x @@ y : x \in {[allOf |-> <<[contains |-> c]>>] : c \in {IntS, StrS
                                 [anyOf |-> <<[contains |-> StrS], [prefixItems |-> <<TrueS>>]>>], [allOf |-> <<[prefixItems |-> <<IntS>>]>>]},
                      y \in {[prefixItems |-> <<IntS>>], [prefixItems |-> <<TrueS>>], [contains |-> IntS], [contains |-> StrS, minContains |-> 0], <<>>}}
 UnevI == {[unevaluatedItems |-> FalseS], [unevaluatedItems |-> StrS]}
-U2Schemas(z) == {u @@ x : u \in UnevI, x \in IF K >= 2 THEN UNION {U2Inplace(0), Pairs(U2Inplace(0)), U2Child, U2Mixed}
+U2Nest2 == {InWrap(w1, InWrap(w2, e)) : w1 \in InWraps, w2 \in InWraps,
+                                        e \in {[prefixItems |-> <<IntS>>], [contains |-> StrS], [items |-> IntS], [prefixItems |-> <<IntS>>, minItems |-> 2]}}
+           \cup {[defs |-> [x |-> e], if |-> [ref |-> LocalRef(PtrDefs("x"))]] : e \in {[prefixItems |-> <<IntS>>], [contains |-> StrS], [prefixItems |-> <<TrueS>>]}}
+U2Schemas(z) == {u @@ x : u \in UnevI, x \in U2Nest2} \cup {u @@ x : u \in UnevI, x \in IF K >= 2 THEN UNION {U2Inplace(0), Pairs(U2Inplace(0)), U2Child, U2Mixed}
                                                        ELSE UNION {U2Inplace(0), U2Child, U2Mixed}}
 U2Vals == {Arr(e) : e \in SeqsOf({Num(R_1), Str("a")}, 0, 3)} \cup {Arr(<<Arr(<<Num(R_1), Num(R_1)>>), Num(R_1)>>), Num(R_1)}
           \cup {Arr(<<Arr(<<Num(R_1)>>), Num(R_3)>>), Arr(<<Arr(<<Num(R_1), Num(R_3)>>), Str("a")>>), Arr(<<Arr(<<Num(R_1)>>), Arr(<<Num(R_3)>>)>>),
@@ -242,13 +258,13 @@ G1Ok(s) == ~({"items", "itemsArray"} \subseteq DOMAIN s)
 G1Schemas(z) == {s \in UpTo(G1Atoms) : G1Ok(s)}
 
 G2Atoms ==
-  {[depStrings |-> d] : d \in {[a |-> <<"b">>], [a |-> <<>>], [c |-> <<"a">>, a |-> <<"ab">>]}}
+  {[depStrings |-> d] : d \in {[a |-> <<"b">>], [a |-> <<>>], [c |-> <<"a">>, a |-> <<"ab">>], [a |-> <<"c", "ab">>]}}
   \cup {[depSchemas |-> d] : d \in {[b |-> [required |-> <<"a">>]], [b |-> FalseS], [b |-> TrueS],
                                     [ab |-> [properties |-> [a |-> IntS]]]}}
   \cup {[properties |-> m] : m \in MapsOf({"a", "b"}, {IntS, FalseS}, 1, 2)}
   \cup {[patternProperties |-> m] : m \in MapsOf({"^a"}, {IntS, FalseS}, 1, 1)}
   \cup {[additionalProperties |-> l] : l \in L3}
-  \cup {[required |-> r] : r \in {<<"a">>, <<"c">>}}
+  \cup {[required |-> r] : r \in {<<"a">>, <<"c">>, <<"c", "a">>}}
   \cup {[minProperties |-> 1], [maxProperties |-> 1], [propertyNames |-> [maxLength |-> 1]]}
 G2Schemas(z) == UpTo(G2Atoms)
 
@@ -340,7 +356,8 @@ DyFinal(fin) ==
     [] fin.k = "resSib" -> [dynamicRef |-> ResRef(fin.j, FragName("n")), not |-> [const |-> Num(Mark[fin.j + 1])]]
 DyFinals == {[k |-> "frag"], [k |-> "ptr"], [k |-> "resSib", j |-> 1]} \cup {[k |-> "res", j |-> j] : j \in 0..K}
 \* chains: sequences of distinct resources of length 1..K
-DyChains == {c \in UNION {[1..n -> 1..K] : n \in 1..K} : \A i, j \in DOMAIN c : i # j => c[i] # c[j]}
+\* (the empty chain: the ROOT resource itself holds the final reference)
+DyChains == {c \in UNION {[1..n -> 1..K] : n \in 0..K} : \A i, j \in DOMAIN c : i # j => c[i] # c[j]}
 \* what resource i does after being entered
 DyActM(i, chain, hk, fin, rem) ==
   LET pos == IF i = 0 THEN 0 ELSE IF \E p \in DOMAIN chain : chain[p] = i THEN CHOOSE p \in DOMAIN chain : chain[p] = i ELSE 99
